@@ -934,3 +934,78 @@ def r_growval(ctx, view, only=None):
     if not only:
         ctx.floor("R-GROWVAL", n, 12)
     return n
+
+
+# ------------------------------------------------------------------------------------------
+# R-STORELIT: a Store literal is empty, or a field-wise copy / move of ONE other Store
+# ------------------------------------------------------------------------------------------
+EMPTY_VEC = ("new", "with_capacity", "default")
+EMPTY_MAP = ("new", "with_hasher", "with_capacity_and_hasher", "with_capacity", "default")
+
+
+def storelit_scan(view, f):
+    """-> list of (bb, span, ok, why) for every `Store { map, heap, qp, size }` aggregate built in body f.
+    The automaton (R-GROW) follows the four components of a Store that exists; a Store ASSEMBLED from separately computed
+    parts has no history it could follow, so the literal itself must be of a shape that is consistent by construction."""
+    vp = view.vp
+    out = []
+    for bi, b in enumerate(f.blocks):
+        if b["cleanup"] or bi not in f.cfg.reach:
+            continue
+        for s in b["stmts"]:
+            rv = s.get("rv") if s["k"] == "assign" else None
+            if not rv or rv["k"] != "aggregate" or rv.get("agg") != "adt" or rv.get("path") != STORE:
+                continue
+            names = [fd["name"] for fd in view.prog.adts[STORE]["variants"][0]["fields"]]
+            ops = {n: strip(vp.operand(f, o)) for n, o in zip(names, rv["ops"])}
+            if set(ops) != {"map", "heap", "qp", "size"}:
+                out.append((bi, s["span"], False, "unexpected fields %s" % sorted(ops)))
+                continue
+
+            def ctor(t, allowed):
+                t = strip(t)
+                return t[0] == "call" and t[1].split("::")[-1] in allowed and not any(
+                    x[0] == "call" and x[1].split("::")[-1] in ("collect", "from_iter", "extend", "clone") for a in t[2] for x in walk(a))
+            # (a) the empty store
+            if const_int(ops["size"]) == 0 and ctor(ops["heap"], EMPTY_VEC) and ctor(ops["qp"], EMPTY_VEC) and ctor(ops["map"], EMPTY_MAP):
+                out.append((bi, s["span"], True, "the empty store"))
+                continue
+            # (b)/(c) field-wise clone / move of one source store
+            srcs = set()
+            okf = True
+            for n in names:
+                t = ops[n]
+                if t[0] == "call" and t[1].split("::")[-1] in ("clone", "take", "replace") and t[2]:
+                    t = strip(t[2][0])
+                    while t[0] in ("ref", "deref"):
+                        t = strip(t[1])
+                while t[0] in ("ref", "deref"):
+                    t = strip(t[1])
+                c = component(t)
+                if c and c[0] == n:
+                    srcs.add(term_str(c[1]))
+                elif t[0] == "field" and t[2] == n:
+                    srcs.add(term_str(strip(t[1])))
+                else:
+                    okf = False
+            if okf and len(srcs) == 1:
+                out.append((bi, s["span"], True, "field-wise copy / move of the store %s" % sorted(srcs)[0][:40]))
+                continue
+            out.append((bi, s["span"], False,
+                        "a Store assembled from separately computed parts (map = %s, heap = %s, qp = %s, size = %s): nothing ties the "
+                        "tables and the counter to the map's entries" % tuple(term_str(ops[n])[:50] for n in ("map", "heap", "qp", "size"))))
+    return out
+
+
+def r_storelit(ctx, view, only=None):
+    prog = view.prog
+    ctx.cur = view
+    n = 0
+    for f in sorted(prog.fns.values(), key=lambda x: x.key):
+        if not f.blocks or (only and not only(f)):
+            continue
+        im = f.j.get("impl_auto_derived") or f.j.get("auto_derived")
+        for bi, span, ok, why in storelit_scan(view, f):
+            n += 1
+            ctx.ob("R-STORELIT", "%s:store-literal" % short(f.key), ok, f.loc(span), why)
+    ctx.floor("R-STORELIT", n, 1)
